@@ -67,7 +67,13 @@ func checkCLIGuards(p *core.Program, r *core.Report, d *ssa.Function, retStatus 
 		}
 		return false
 	}
-	if retStatus {
+	hasArgsParam := false
+	for _, pa := range d.Params {
+		if pa.Type().String() == "[]string" {
+			hasArgsParam = true
+		}
+	}
+	if retStatus && hasArgsParam {
 		okArg := false
 		if mainFn := p.CmdFunc("main"); mainFn != nil {
 			for _, c := range core.Calls(mainFn) {
@@ -256,7 +262,9 @@ func checkCLIHelperGuards(p *core.Program, r *core.Report) {
 					continue
 				}
 				if _, isLk := ex.Tuple.(*ssa.Lookup); !isLk {
-					continue
+					if cc, isCall := ex.Tuple.(*ssa.Call); !isCall || lookupTable2(core.StaticCallee(cc)) == nil {
+						continue
+					}
 				}
 				okG := false
 				for _, g := range liveGuards(bo.Block()) {
